@@ -128,6 +128,9 @@ def handle : List String → String
       "ok;hot[" ++ storeStr d'.hot ++ "]cold[" ++ storeStr d'.cold ++ "]"
     | none => "bad-op"
   | ["repo", seed] => if seed.toNat?.isSome then "ok" else "bad-op"
+  | ["repo-hist", steps, seed] =>
+    if seed.toNat?.isSome ∧ (steps.splitOn ",").all (fun s => s.length = 1 ∧ s.toList.all (fun c => "bfFpmkixX".toList.contains c)) then "ok"
+    else "bad-op"
   | ["repo-read-data", seed] => if seed.toNat?.isSome then "ok" else "bad-op"
   | _ => "bad-op"
 
